@@ -13,6 +13,7 @@ package main
 //      marker k, versus a Go reference evaluator of the documented semantics (docApplies below).
 
 import (
+	"github.com/prometheus/client_golang/prometheus"
 	"fmt"
 	"math/rand"
 	"os"
@@ -41,12 +42,12 @@ var (
 	c09Paths    = []string{"rules/a.yml", "rules/sub/b.yml", "rules/b.yml"}
 	c09LabKeys  = []string{"team", "severity", "env"}
 	c09LabVals  = []string{"x", "y", "page", "prod", "xy"}
-	c09KeyPats  = []string{"team", "team|env", "sev.*", ".*", "t.+m", "env|", "team|severity", ".*e.*", "(env|severity)", "[a-z]+"}
-	c09ValPats  = []string{"x", "x|y", "page", ".+", "p.*", "y|prod", "(x|page)"}
+	c09KeyPats  = []string{"team", "team|env", "sev.*", ".*", "t.+m", "env|", "team|severity", ".*e.*", "(env|severity)", "[a-z]+", "eam", "ever.*", "nv", "sev"}
+	c09ValPats  = []string{"x", "x|y", "page", ".+", "p.*", "y|prod", "(x|page)", "ag", "ro", "pag"}
 	c09AnnKeys  = []string{"summary", "link", "runbook"}
 	c09AnnVals  = []string{"s", "http://x", "ok", "page"}
-	c09ForPats  = []string{"5m", "> 1m", "<= 5m", "!= 0s", ">= 10m", "< 1h", "= 5m", "0", "> 0"}
-	c09KeepPats = []string{"5m", "> 1m", "<= 5m", "garbage", "~ 5m", "> x", "!= 1h", ">= 0s", ">  5m", " 5m"}
+	c09ForPats  = []string{"5m", "> 1m", "<= 5m", "!= 0s", ">= 10m", "< 1h", "= 5m", "0", "> 0", ">= 5m", "> 5m", "< 5m", "!= 5m", ">= 1m", "<= 1m", "< 10m", "<= 10m", "> 10m", "= 1h", ">= 1h", "<= 0s", "> 0s"}
+	c09KeepPats = []string{"5m", "> 1m", "<= 5m", "garbage", "~ 5m", "> x", "!= 1h", ">= 0s", ">  5m", " 5m", ">= 5m", "> 5m", "< 5m", ">= 1m", "<= 1m", "= 10m", ">= 10m", "< 1h", ">= 1h"}
 	c09Durs     = []string{"5m", "0s", "1h", "1m", "10m", "30s", "1m30s", "0", "abc", "5 m"}
 	c09States   = []string{"any", "added", "modified", "renamed", "removed", "unmodified"}
 	c09Cmds     = []string{"ci", "lint", "watch"}
@@ -161,21 +162,29 @@ func c09GenFocusConfig(r *rand.Rand, k int, off int) string {
 	for i := 0; i < k; i++ {
 		cond := c09CondKinds[(off+i)%len(c09CondKinds)]
 		body := c09OneCond(r, cond)
-		if r.Intn(4) == 0 {
+		if r.Intn(5) < 2 {
 			other := pick(r, c09CondKinds)
 			if other != cond {
 				body += c09OneCond(r, other)
 			}
 		}
+		stateLine := ""
+		if cond != "state" && !strings.Contains(body, " state = ") && r.Intn(3) == 0 {
+			// an explicit state on the match block only: ignore blocks never get one by default
+			stateLine = c09OneCond(r, "state")
+		}
 		b.WriteString("rule {\n")
-		switch r.Intn(4) {
+		switch r.Intn(5) {
 		case 0:
 			b.WriteString("  ignore {\n" + body + "  }\n")
+		case 4:
+			// an explicit-state match block next to a state-less ignore block
+			b.WriteString("  match {\n" + c09OneCond(r, "state") + "  }\n  ignore {\n" + body + "  }\n")
 		case 1:
 			// two alternatives: the block applies when either holds
 			b.WriteString("  match {\n" + body + "  }\n  match {\n" + c09OneCond(r, cond) + "  }\n")
 		default:
-			b.WriteString("  match {\n" + body + "  }\n")
+			b.WriteString("  match {\n" + body + stateLine + "  }\n")
 		}
 		fmt.Fprintf(&b, "  label \"marker_%d\" {\n    required = true\n    comment = \"k%d\"\n  }\n}\n", i, i)
 	}
@@ -805,6 +814,27 @@ func runC09(args []string) int {
 			rep.hist("corr:finder-error")
 			continue
 		}
+		// parseRule/newParsedRule: what a parsed rule stores for the blocks of its rule{} (every command)
+		if len(entries) > 0 {
+			gen := config.NewPrometheusGenerator(cfg, prometheus.NewRegistry())
+			if gen.GenerateStatic() == nil {
+				for _, rule := range cfg.Rules {
+					it, _, _ := c09Blocks(rule.Ignore)
+					mt, _, _ := c09Blocks(rule.Match)
+					for _, cmd := range []string{"ci", "lint", ""} {
+						for _, pr := range config.VerifParseRule(scCtx(cmd), rule, gen, entries[0]) {
+							oi, _, _ := c09Blocks(pr.Ignore)
+							om, _, _ := c09Blocks(pr.Match)
+							id++
+							cw.add(fmt.Sprintf("PRule %s %s %s %s %s %s", coqN(id), coqStr(cmd), it, mt, oi, om))
+							rep.count("prule|"+cmd+"|"+it+"|"+mt, len(rule.Match) > 0 && len(rule.Ignore) > 0)
+							rep.hist("case=parsed-rule")
+						}
+					}
+				}
+			}
+			gen.Stop()
+		}
 		for _, e0 := range entries {
 			for _, rule := range cfg.Rules {
 				e := e0
@@ -876,7 +906,7 @@ type c09Scenario struct {
 }
 
 func c09Binary(r *rand.Rand, rep *runReport, cwd string, n int) {
-	ns := n
+	ns := 2 * n
 	var scens []c09Scenario
 	// corpus: the design-session witness (alternation must stay anchored, 67ca7ad) and the aliasing witness (dac9e2b)
 	scens = append(scens, c09Scenario{Cmd: "lint",
